@@ -752,7 +752,10 @@ def _do(world, st, op):
 
             return v, False
 
-        if how == 'list_append' and isinstance(cur, dict):
+        if how == 'self':
+            # the attribute assigned the very object it currently holds
+            new = cur
+        elif how == 'list_append' and isinstance(cur, dict):
             new, done = grow(copy.deepcopy(cur))
 
             if not done:
